@@ -5,3 +5,4 @@ pub mod arch_model;
 pub mod bin_image;
 pub mod lz;
 pub mod fs_model;
+pub mod texpack;
